@@ -2,6 +2,7 @@ package rules
 
 import (
 	"fmt"
+	"go/token"
 	"strings"
 
 	"golang.org/x/tools/go/ssa"
@@ -52,4 +53,55 @@ func c17NoListAliasing(c *Ctx) {
 		}
 	}
 	c.Check(nApp >= 5, "ipp-no-list-aliasing", "append sites examined", "-", fmt.Sprint(nApp), "fewer append sites than the IPP codec is known to have")
+}
+
+// decoderErrorSticky: once a read has failed, LastError stays non-nil for the life of the decoder – every store to
+// the decoder's error field outside a constructor stores a value known to be non-nil at that point. The IPP decode
+// loops leave only through that error (inner decode results are discarded and re-examined at the top of the next
+// iteration), so a store that can clear it turns a truncated request into an endless loop that keeps appending.
+func decoderErrorSticky(c *Ctx, rule string) {
+	p := c.P
+	dt := p.Type(decRel, "Decode")
+	if !c.Anchor(dt != nil, rule, "decoder.Decode") {
+		return
+	}
+	errField := fieldByType(dt, IsErrorType)
+	if !c.Anchor(errField != "", rule, "decoder.Decode's error field") {
+		return
+	}
+	n := 0
+	for _, fn := range p.FuncsIn(decRel) {
+		for _, b := range fn.Blocks {
+			for _, in := range b.Instrs {
+				st, ok := in.(*ssa.Store)
+				if !ok {
+					continue
+				}
+				fa, ok := st.Addr.(*ssa.FieldAddr)
+				if !ok || fieldNameOf(fa) != errField || NamedOf(fa.X.Type()) == nil || NamedOf(fa.X.Type()).Obj() != dt.Obj() {
+					continue
+				}
+				if _, fresh := fa.X.(*ssa.Alloc); fresh {
+					continue // a decoder under construction
+				}
+				n++
+				key := shortFn(fn) + " stores " + errField
+				nonNil := NeverNil(st.Val)
+				if _, isMI := st.Val.(*ssa.MakeInterface); isMI {
+					nonNil = true
+				}
+				for _, dc := range DomConds(st) {
+					bo, isB := dc.V.(*ssa.BinOp)
+					if !isB || !IsNilConst(bo.Y) || bo.X != st.Val {
+						continue
+					}
+					if (bo.Op == token.NEQ && dc.Pol) || (bo.Op == token.EQL && !dc.Pol) {
+						nonNil = true
+					}
+				}
+				c.Check(nonNil, rule, key, p.InstrPos(st), "only a non-nil error is recorded (the recorded error is never cleared)", "this store can put nil into the decoder's recorded error (`"+RenderN(st.Val, 3)+"` is not known to be non-nil here): a successful operation after a failed read clears the failure, and callers that look at LastError later – the IPP decode loops check it once per iteration – carry on with zero values as if nothing had happened, e.g. looping forever over a truncated request")
+			}
+		}
+	}
+	c.Floor(rule, 2, "the failing arms of the read primitives and of Seek")
 }
